@@ -40,6 +40,8 @@ def crash_oracle(req, ans):
         return "the implementation returned a slice outside the message"
     if k == "ub":
         return "undefined behaviour"
+    if k == "resumed-after-error":
+        return "the label walk went on after it had rejected the name: " + ans[:120]
     return None
 
 
@@ -574,10 +576,23 @@ def rrset_gate_oracle(req, ans):
     if c:
         return c
     h = req.split(" ")[2]
-    if not ans.startswith("ok") or h == "-" or len(h) < 24:
+    if h == "-" or len(h) < 24:
         return None
     flags = int(h[4:8], 16)
     qd = int(h[8:12], 16)
+    # "each reported by its specific error carrying the offending value"
+    m = re.match(r"err BadQuestionsCount\((\d+)\)", ans)
+    if m and int(m.group(1)) != qd:
+        return "BadQuestionsCount(%s) reported for a message with QDCOUNT = %d" % (m.group(1), qd)
+    m = re.match(r"err BadResponseCode\((\d+)\)", ans)
+    if m and (int(m.group(1)) & 0xF) != (flags & 0xF):
+        return "BadResponseCode(%s) reported for a message whose header RCODE is %d" % (m.group(1), flags & 0xF)
+    if ans.startswith("err MessageTruncated") and not flags & 0x0200:
+        return "MessageTruncated reported for a message with TC = 0"
+    if ans.startswith("err BadMessageType") and flags & 0x8000:
+        return "BadMessageType reported for a response (QR = 1)"
+    if not ans.startswith("ok"):
+        return None
     if not flags & 0x8000:
         return "a record set was returned for a query (QR=0)"
     if flags & 0x0200:
@@ -1265,6 +1280,7 @@ PROPS = {
                    "borrowed vs owned headers and skip vs raw vs typed data positions: C09.pair_follows_pass; typed random access: "
                    "C10.at_closed_form. Comparison involving MessageReader views is limited to ≤ 65535 bytes (MessageReader::new refuses more).",
         streams=[dict(name="views"), dict(name="nameeq", impl_oracle=nameeq_oracle), dict(name="names", quick=20000),
+                 dict(name="truth", quick=6000),
                  dict(name="reader", quick=8000, impl_oracle=purity_oracle), dict(name="readerx", quick=8000, impl_oracle=purity_oracle)],
         explanation="C08: iter_agrees_with_pass, data_eq_dataAt, dataBytes_eq_dataBytesAt (Props/C08Views.lean), nameref_eq_decoded, nameRefEqLoop_spec, eqLabels_iff_nameEq, read_kinds_agree, skip_of_read, walk_congr_mode; streams `views` and `nameeq`.",
     ),
